@@ -21,10 +21,14 @@ ProbesExh  == {8, 9, 11}
 ProbesFaithful == {7}
 ProbesDeep == {1, 7, 8, 9, 10, 12}
 NoProbes   == {}
+UidsExh    == {32, 200, 400}
+UidsDeep   == {32, 64, 200, 320, 400}
+UidsOwn    == {32}
 \* size facts the text of the property relies on (evaluated once by TLC)
 ASSUME ReqSize(PoolMax) = NtpLen + UidField + CookieField + AuthField(0)
 ASSUME \A p \in 1 .. PoolMax : ReqSize(p) = RespSize(1 + PoolMax - p)   \* placeholders reserve exactly the reply's room
 ASSUME MaxFit >= 1
+ASSUME \A u \in 32 .. UidLimit : MaxFitU(u) >= 1   \* an accepted identifier always leaves room for a cookie
 BadReqLevels == {p \in 1 .. PoolMax : EncodeOutcome(FieldsEnd(1 + PoolMax - p), ReqSize(p)) # "ok"}
 PanicLevels  == {p \in 1 .. PoolMax : EncodeOutcome(FieldsEnd(1 + PoolMax - p), ReqSize(p)) = "panic"}
 BadRespCounts == {n \in 1 .. 12 : RespSize(IF CapReply THEN Min2(n, MaxFit) ELSE n) > MaxPacketLen}
